@@ -136,7 +136,7 @@ Print Assumptions C03_constructor_rebuilds_the_element.
    after "{" or ",", the keyword inf after "/", a label after ":" up to the closing brace, and punctuation, one lexeme per pass
    (Token_ext.v); hence the text to_string(d) prints for a tree of elements without sub-circuits ([lex_conn_ok]: symbols and keys of the
    validated shapes, keys of the class in order, finite values, limits that are numbers or infinite, no printed number beyond the range
-   of a double, a label that starts with a letter and contains no brace) is split into exactly the tokens of the theorem above for
+   of a double, a label that starts with a letter and whose braces are balanced) is split into exactly the tokens of the theorem above for
    the tree [rd_conn d c] in which every number is replaced by the value float() reads from its printed form (Lex_ext.v).
    Together: print with to_string(d), scan, parse — the result is the specified tree and holds the elements of the printed tree at the
    printed precision, in order. *)
